@@ -116,6 +116,18 @@ def make_dist(fam, event, cond, seed=0):
         return Normal(loc=offs, scale=1.5 + offs)
     if fam == "stdnormal":
         return StandardNormal(event)
+    if fam == "lognormal":
+        # support (0, inf): about half of the generated points lie outside, where the raw log-density is NaN and the public one -inf
+        from flowjax.distributions import LogNormal
+        return LogNormal(loc=offs, scale=0.5 + offs)
+    if fam == "expcond":
+        m = int(np.prod(cond)) if cond else 1
+        w = jnp.asarray(0.37 + 0.11 * np.arange(m, dtype=float).reshape(cond))
+
+        def g(c, w=w, offs=offs):
+            return jnp.sum(jnp.cos(c * w)) - offs
+
+        return Transformed(Transformed(StandardNormal(event), B.AdditiveCondition(g, event, cond)), B.Exp(event))
     if fam == "custom":
         return CustomCond(tuple(event), tuple(cond))
     if fam == "coupling":
@@ -248,6 +260,8 @@ def dist_grid(tier, rng):
                 grid.append(("custom", ev, cs, full and j % 3 == 0))
         grid.append(("normal", ev, None, full))
         grid.append(("stdnormal", ev, None, full))
+        grid.append(("lognormal", ev, None, False))
+        grid.append(("expcond", ev, rng.choice(SHAPES2), False))
     for d, k in ([(2, 1), (3, 2)] if not full else [(2, 1), (2, 3), (3, 2), (3, 1)]):
         grid.append(("coupling", (d,), (k,), full))
     if full:
@@ -604,8 +618,12 @@ def search(hints, tier, rng):
     full = tier != "quick"
     fams = ([(f, ev, cs) for ev in SHAPES2 for cs in SHAPES2 for f in ("addcond", "custom")] + [(f, ev, None) for ev in SHAPES2 for f in ("normal", "stdnormal")]
             + [("coupling", (2,), (1,)), ("coupling", (3,), (2,))])
+    # batches that mix in-support and out-of-support points (raw NaN -> public -inf, element by element)
+    edge = [("lognormal", ev, None) for ev in SHAPES2[:4]] + [("expcond", ev, cs) for ev in SHAPES2[:3] for cs in SHAPES2[1:3]]
     if not full:
-        fams = rng.sample(fams[:-2], 40) + fams[-2:]
+        fams = rng.sample(edge, 4) + rng.sample(fams[:-2], 40) + fams[-2:]
+    else:
+        fams = edge + fams
     for fam, ev, cs in fams:
         seed = rng.randrange(10 ** 6)
         trials = []
